@@ -269,7 +269,8 @@ func c04Phase(c *vk.Ctx, r *rand.Rand, natTimeout time.Duration, expiry bool) bo
 	for src, ci := range owner {
 		ua, _ := net.ResolveUDPAddr("udp", "127.0.0.1:"+src)
 		// the proxy's outbound sockets are dual-stack wildcards: address them by a local address of either family
-		for _, sender := range []*UDPEnd{tp4, tp6, w.targets[2].UDPEnd, w.targets[3].UDPEnd} {
+		// (targets 0 and 1 are two ports of one host: the sender is an address AND a port)
+		for _, sender := range []*UDPEnd{tp4, tp6, w.targets[0].UDPEnd, w.targets[1].UDPEnd, w.targets[2].UDPEnd, w.targets[3].UDPEnd, w.targets[1].UDPEnd, w.targets[0].UDPEnd} {
 			id := nextID(c.Batch)
 			p := replyPayload(id, 1, 20+r.Intn(300))
 			dst := &net.UDPAddr{Port: ua.Port}
